@@ -61,6 +61,11 @@ func altCost(p *vrt.Point) int {
 func (e *Explorer) Explore(maxBound int) {
 	e.Stats.States = map[uint64]struct{}{}
 	e.Stats.BoundDone = -1
+	if vrt.Tolerant {
+		// process-wide state that cannot be reset: one discarded execution first, so that the
+		// executions that count all start from the state their predecessor leaves behind
+		e.Run(nil)
+	}
 	for b := 0; b <= maxBound && !e.stop; b++ {
 		e.bound = b
 		e.explore(nil, 0, 0, b)
